@@ -18,7 +18,7 @@ A == INSTANCE LasReadAlgo
 \* ---- building blocks -------------------------------------------------------
 T(sec)     == [k |-> "title", sec |-> sec]
 It(m, v)   == [k |-> "item", m |-> m, v |-> v]
-Cell(r, c, cls) == [id |-> r * 10 + c, cls |-> cls]
+Cell(r, c, cls) == [id |-> r * 100 + c, cls |-> cls]      \* (row, column) coordinates carried in the value
 CurveName(j) == <<"DEPT", "GR", "RHOB", "NPHI", "DT", "CALI">>[j]
 
 VBlockV(vers, wrap, dlm) == <<T("V"), It("VERS", vers), It("WRAP", wrap)>> \o (IF dlm = "SPACE" THEN <<>> ELSE <<It("DLM", dlm)>>)
@@ -69,6 +69,7 @@ Coarse ==
     CASE Family = "C05" -> UNION {Perms(S \cup {"W", "C", "A"}) : S \in Subsets5}     \* every order of every subset, ~A anywhere
       [] Family = "C07" -> {<<"dcr", d>> : d \in 0..MaxD} \cup {<<"wrapped", c>> : c \in 1..MaxC}
                            \cup {<<"tall", r>> : r \in {21, 22, 23, 45, 101}}      \* beyond the 21-line sniffing window
+                           \cup {<<"wide", c>> : c \in {11, 12, 13, 24}}           \* ten and more surplus (unnamed) columns
       [] Family = "C02" -> {<<r, c, f, early>> : r \in 1..MaxR, c \in 1..MaxC, f \in Followers, early \in BOOLEAN}
       [] Family = "C06" -> {<<r, c, tc, pol, hasnull, w>> : r \in 1..MaxR, c \in 2..MaxC, tc \in {0, 2}, pol \in {"strict", "none"},
                                                            hasnull \in BOOLEAN, w \in {"NO", "YES"}}
@@ -85,6 +86,9 @@ Fine(a) ==
                            \o ABlock(a[2], c, [NoDeco(a[2]) EXCEPT ![gap] = dd], Fin), opts |-> Opts0,
                   tag |-> <<"tall", a[2], d, c, gap, dd>>] : c \in 1..3, d \in 0..4, gap \in {1, 21, 22, a[2] + 1},
                                                            dd \in {<<>>, <<"comment">>, <<"blank", "blank">>}}
+           ELSE IF a[1] = "wide"
+           THEN {[text |-> VBlock("NO", "SPACE") \o WBlock("null1") \o CBlock(d) \o ABlock(r, a[2], NoDeco(r), Fin), opts |-> Opts0,
+                  tag |-> <<"wide", a[2], d, r>>] : d \in 0..2, r \in 1..2}
            ELSE IF a[1] = "dcr"
            THEN {[text |-> VBlock("NO", "SPACE") \o WBlock("null1") \o CBlock(a[2])
                            \o ABlock(r, c, deco, LAMBDA i, j : IF j = tcol THEN "TEXT" ELSE "FIN"), opts |-> Opts0,
